@@ -8,10 +8,11 @@
   `F(a >> b) = F(a) >> F(b)`, `F(a @ b) = F(a) @ F(b)`, adjoints `F(t.l) = F(t).l`, `F(t.r) = F(t).r` for every winding
   number, the special rules for swaps/cups/caps, dagger for generator boxes.
   NOT proved here (kept as `Prop`s; checked by the law oracle on the real code on every run):
-  `F_slice`, `F_sum`, `F_dagger` for whole diagrams.  FALSE for the code (finding F6, witnessed on the real code):
+  `F_slice`, `F_sum`.  `F_dagger` is proved for diagrams whose boxes satisfy the box-level dagger
+  law (`F_dagger_partial`; generator boxes do) and refuted in general (`F6_swap_witness`).  FALSE for the code (finding F6, witnessed on the real code):
   `F(Swap(x,y)†) = F(Swap(x,y))†` when both images have ≥ 2 wires.
 -/
-import Proofs.FunctorTensor
+import Proofs.FunctorDagger
 
 namespace DV.C04
 open DV
@@ -61,6 +62,30 @@ theorem F_tensor (F : Functor) (a b ab fa fb : Diagram) (ha : a.WF) (hb : b.WF)
     (hab : a.tensor b = .ok ab) (hfa : F.apply a = .ok fa) (hfb : F.apply b = .ok fb) :
     ∃ r, fa.tensor fb = .ok r ∧ F.apply ab = .ok r :=
   F.apply_tensor ha hb hoka hokb hab hfa hfb
+
+/-- `F(d†) = F(d)†` for every diagram whose boxes satisfy the box-level dagger law. -/
+theorem F_dagger_partial (F : Functor) (d fd : Diagram) (hd : d.WF)
+    (hok : ∀ b ∈ d.boxes, F.okOn b)
+    (hdag : ∀ b ∈ d.boxes, ∀ x, F.box b = .ok x → F.box b.dag = .ok x.dagger)
+    (hfd : F.apply d = .ok fd) : F.apply d.dagger = .ok fd.dagger :=
+  F.apply_dagger hd hok hdag hfd
+
+/-- The box-level dagger law holds for generator boxes (flagged or not) … -/
+theorem F_dagger_box_flagged (F : Functor) (b : Box) (hk : b.kind = .gen) (hd : b.dagger = true)
+    (y : Diagram) (hy : F.arLookup b.dag = .ok y) (hw : y.WF) (x : Diagram) (hx : F.box b = .ok x) :
+    F.box b.dag = .ok x.dagger := F.box_dagger_flagged b hk hd hy hw hx
+
+/-- … and FAILS for `Swap(x, y)` when both images have two wires (finding F6, witnessed on the
+    real code as well): so the full statement `F_dagger` below is false and is not claimed. -/
+theorem F6_swap_witness :
+    (match F6.F.box F6.sw, F6.F.box F6.sw.dag with
+     | .ok a, .ok b => a.dagger.eqv b
+     | _, _ => true) = false := F6.swap_dagger_law_fails
+
+/-- NOT A THEOREM (refuted by `F6_swap_witness`). -/
+def F_dagger : Prop :=
+  ∀ (F : Functor) (d fd : Diagram), d.WF → (∀ b ∈ d.boxes, F.okOn b) →
+    F.apply d = .ok fd → F.apply d.dagger = .ok fd.dagger
 
 /-! Non-vacuity: a functor with an empty and a two-wire object image, applied to a 2-box diagram. -/
 private def x : Ob := ⟨"x", 0⟩
